@@ -311,15 +311,22 @@ def lex(src):
         # labels ::name::
         if c == 0x3a and src[i + 1:i + 2] == b':':
             j = i + 2
+            while j < n and src[j] in (0x20, 0x09):      # Lua allows blanks inside ':: name ::'
+                j += 1
             if j < n and is_name_start(src[j]):
                 k = j
                 while k < n and is_name_char(src[k]):
                     k += 1
-                if src[k:k + 2] == b'::' and src[j:k] not in KEYWORDS:
-                    add('label', i, k + 2, src[j:k])
-                    i = k + 2
+                m = k
+                while m < n and src[m] in (0x20, 0x09):
+                    m += 1
+                if src[m:m + 2] == b'::' and src[j:k] not in KEYWORDS:
+                    # one label token either way; value = the name.  (picotool's dialect writes labels compactly;
+                    # checks treat a spaced label as in-domain only for trees that parse it.)
+                    add('label', i, m + 2, src[j:k])
+                    i = m + 2
                     continue
-            raise Malformed('"::" outside a compact ::label::', i)
+            raise Malformed('"::" outside a ::label::', i)
         # names / keywords
         if is_name_start(c):
             j = i
@@ -395,7 +402,7 @@ _SELFTEST = [
     (b'a\\b^^c', ['name', 'symbol', 'name', 'symbol', 'name']),
     (b'@a $b %c', ['symbol', 'name', 'symbol', 'name', 'symbol', 'name']),
 ]
-_SELFTEST_BAD = [b'1..2', b'1..x', b'3..2', b'1and', b'0x', b'0xg', b'"a\nb"', b'"\\q"', b'"\\300"', b'[[x',
+_SELFTEST_BAD = [b'::a b::', b'1..2', b'1..x', b'3..2', b'1and', b'0x', b'0xg', b'"a\nb"', b'"\\q"', b'"\\300"', b'[[x',
                  b'--[[x', b'"abc', b'a!b', b'`', b'a::b', b'1.2.3', b'0b12', b'1e', b'1e+']
 
 
